@@ -578,7 +578,9 @@ func ruleLockOrder(c *Ctx) {
 	for _, f := range p.Repo {
 		m := map[*types.Var]bool{}
 		for _, call := range callsIn(f) {
-			if lf := lockField(call.Common()); lf != nil {
+			if lf := lockField(call.Common()); lf != nil && !unlocksFirst(f, lf) {
+				// (a function that first unlocks the mutex runs inside its caller's critical section and only
+				// re-takes what it gave up: it acquires nothing from the caller's point of view)
 				m[lf] = true
 			}
 		}
@@ -734,6 +736,29 @@ func ruleLockOrder(c *Ctx) {
 			}
 		}
 	}
+	// the event subscription's mutex is also held where no Lock call is in sight: by every task its worker
+	// runs (Enqueue / enqueueUnlock) and by what those call. A callee that takes it again deadlocks the worker.
+	if esMu := p.Field("rescache.EventSubscription.mu"); esMu != nil {
+		for f, st := range p.esLockStates(esMu) {
+			if direct[f][esMu] {
+				continue // has its own Lock calls: handled above
+			}
+			for _, call := range callsIn(f) {
+				if st[call] != 1 {
+					continue
+				}
+				for _, g := range callees(f, call) {
+					for b := range acq[g] {
+						if b != esMu {
+							edges[name(esMu)+" -> "+name(b)] = fnName(f) + " calls " + fnName(g)
+						} else if g != f && !unlocksFirst(g, esMu) {
+							edges[name(esMu)+" -> "+name(esMu)] = fnName(f) + " (run with the lock held) calls " + fnName(g)
+						}
+					}
+				}
+			}
+		}
+	}
 	// cycle check
 	g := map[string][]string{}
 	var keys []string
@@ -768,7 +793,11 @@ func ruleLockOrder(c *Ctx) {
 		}
 	}
 	c.inst(len(keys))
-	detail := strings.Join(keys, "; ")
+	var parts []string
+	for _, k := range keys {
+		parts = append(parts, k+" ["+edges[k]+"]")
+	}
+	detail := strings.Join(parts, "; ")
 	if cycle != "" {
 		c.viol("lock order", "mutex acquisition graph is acyclic", "-", "cycle: "+cycle+" (edges: "+detail+"): two goroutines can deadlock and stall every resource and connection behind these locks")
 	} else {
